@@ -138,6 +138,10 @@ def feed(args, data, schedule):
 
 
 def run(rep, tier, seed):
+    # PrefixExactlyOnce / ShortOnlyAtEOF / "answered only from bytes that have arrived" as an inductive invariant
+    # (Apalache, spec/FileIOInd.tla: contents of up to 8 arbitrary bytes, every schedule, histories of every length)
+    core.apalache_inductive("FileIOInd")
+    rep.notes["inductive_invariant_FileIO"] = "discharged by Apalache (base and step), contents of up to 8 arbitrary bytes"
     core.build_harness()
     core.build_binary()
     for c in ("C1", "C2", "C3", "C4"):
